@@ -76,11 +76,14 @@ def ensure_built(what='all'):
 def coq_obligations(pid, theorems, module=None):
     """Compile a small file that requires the property file, pins nothing itself but prints the
     assumptions of every listed theorem.  Returns list of dicts {name, ok, axioms, detail}."""
-    module = module or ('Educe.Properties.%s' % pid)
+    mods = module or ['Educe.Properties.%s' % pid]
+    if isinstance(mods, str):
+        mods = [mods]
     os.makedirs(BUILD, exist_ok=True)
     path = os.path.join(BUILD, 'obl_%s.v' % pid)
     with open(path, 'w') as f:
-        f.write('Require Import %s.\n' % module)
+        for m in mods:
+            f.write('Require Import %s.\n' % m)
         for t in theorems:
             f.write('Print Assumptions %s.\n' % t)
     rc, out, err = run(['coqc', '-q', '-noglob'] + COQ_Q + ['-o', os.path.join(BUILD, 'obl_%s.vo' % pid), path],
